@@ -167,6 +167,16 @@ func (s *Service) proxyToSingleEndpoint(ctx context.Context, w http.ResponseWrit
 		return core.MarkResponseStarted(common.MakeUserFriendlyError(streamErr, time.Since(stats.StartTime), "streaming", s.configuration.GetResponseTimeout()))
 	}
 
+	// trailer fields the backend sent after its last chunk belong to its answer too; the
+	// transport has collected them by now (http.TrailerPrefix lets them be declared late)
+	if streamErr == nil {
+		for key, values := range resp.Trailer {
+			for _, value := range values {
+				w.Header().Add(http.TrailerPrefix+key, value)
+			}
+		}
+	}
+
 	// We've successfully written the response
 	duration := time.Since(stats.StartTime)
 	switch {
